@@ -976,6 +976,14 @@ fn gen_case(batch: &str, _index: u64, seed: u64) -> Case {
                 yy[at] = ls[c];
             }
         }
+        // zero has two signs that compare equal: a class labelled 0 may hold +0.0 and -0.0 rows
+        if r.chance(0.3) {
+            for v in yy.iter_mut() {
+                if *v == 0.0 && r.chance(0.5) {
+                    *v = -0.0;
+                }
+            }
+        }
         // make sure at least two classes survive the overwrite above
         let mut u = yy.clone();
         u.sort_by(|a, b| a.partial_cmp(b).unwrap());
